@@ -7,6 +7,7 @@ import (
 	"sort"
 	"strings"
 	"testing"
+	"time"
 
 	"verif/sim/resp"
 	"verif/sim/sim"
@@ -345,6 +346,28 @@ func runC15(t *testing.T, tape *sim.Tape, tier string) *Outcome {
 				checkRunning("at the end of the run")
 				checkRegistry("at the end of the run")
 			}
+			// half of the runs that end with a running server: connections that stay idle for a long (simulated) time
+			// are still served afterwards - "until Stop is called" has no time limit
+			if running && len(o.Viol) == 0 && tape.Draw(2, "longlived") == 1 {
+				idle := []time.Duration{time.Second, 11 * time.Second, 61 * time.Second, time.Hour, 25 * time.Hour}[tape.Draw(5, "idle")]
+				lp := cl.addClient("longlived", addr, [][]byte{resp.Cmd("PING"), resp.Cmd("PING")})
+				lp.Lockstep = true
+				lp.PauseBefore = map[int]time.Duration{1: idle}
+				lp.End = endPlan{Mode: endClose, AfterTx: -1}
+				var lt *tlsClient
+				if tlsOn {
+					lt = cl.addTLSClient("tlonglived", tlsAddr, pk.ClientConfig(pk.Right), [][]byte{resp.Cmd("PING"), resp.Cmd("PING")})
+					lt.PauseBefore = map[int]time.Duration{1: idle}
+				}
+				cl.settle(6000)
+				o.stat("long_lived_connections", 1)
+				if len(lp.Vals) < 2 || !lp.Vals[1].Equal(resp.St("PONG")) {
+					o.violate("c15:old-connection-not-served", "a plain connection that idled %s is not served any more (%d of 2 replies, closed by server: %t); lifecycle %s", idle, len(lp.Vals), lp.SrvClosed, hist())
+				}
+				if lt != nil && (len(lt.Vals) < 2 || !lt.Vals[1].Equal(resp.St("PONG"))) {
+					o.violate("c15:old-connection-not-served-tls", "a TLS connection that idled %s is not served any more (%d of 2 replies, io err %v); lifecycle %s; parked %v", idle, len(lt.Vals), lt.IOErr, hist(), taskList(cl.S.Parked()))
+				}
+			}
 			// a quarter of the runs that end with a running server: a client changes the port configuration
 			// at run time, then Stop is called - what Stop must release is what Start opened
 			if running && len(o.Viol) == 0 && tape.Draw(4, "cfgstop") == 3 {
@@ -387,7 +410,7 @@ func init() {
 	register(&Check{
 		ID: "C15", Bubble: true, Run: runC15,
 		Runs:   map[string]int{"quick": 16000, "thorough": 1000000},
-		Rule:   "a case is one run: a lifecycle task executing 1..6 drawn calls from {Start, Stop, Restart} (ill-ordered sequences included; a quarter of the TLS runs are preceded by a Start that fails on an unusable certificate and a Stop), 0..4 clients that dial, PING, idle, close or reset at drawn moments, and the accept loops and connection goroutines the server spawns, interleaved by the seeded scheduler at simulated Listen/Accept/Read and at the tagged yield points (start.opened, stop.mid, stop.closed, accept.entry, accept.exit, conn.register, conn.deregister, connmgr.stopped, connmgr.snapshot; each enabled per run by the swarm); half of the runs hold a drawn set of server tasks parked until the call in progress has returned; a quarter of the runs that end with a running server add CONFIG SET port/tls-port (0, non-numeric, negative, another port) from a client followed by Stop; after each call returns the system is drained and the promised state is probed (dial+PING; bind probe, closed sockets, parked tasks, goroutine profile, registry); distinct = distinct event-log hashes",
+		Rule:   "a case is one run: a lifecycle task executing 1..6 drawn calls from {Start, Stop, Restart} (ill-ordered sequences included; a quarter of the TLS runs are preceded by a Start that fails on an unusable certificate and a Stop), 0..4 clients that dial, PING, idle, close or reset at drawn moments, and the accept loops and connection goroutines the server spawns, interleaved by the seeded scheduler at simulated Listen/Accept/Read and at the tagged yield points (start.opened, stop.mid, stop.closed, accept.entry, accept.exit, conn.register, conn.deregister, connmgr.stopped, connmgr.snapshot; each enabled per run by the swarm); half of the runs hold a drawn set of server tasks parked until the call in progress has returned; half of the runs that end with a running server keep a plain and a TLS connection idle for 1 s .. 25 h of simulated time and then use them again; a quarter of the runs that end with a running server add CONFIG SET port/tls-port (0, non-numeric, negative, another port) from a client followed by Stop; after each call returns the system is drained and the promised state is probed (dial+PING; bind probe, closed sockets, parked tasks, goroutine profile, registry); distinct = distinct event-log hashes",
 		Real:   []string{"redis.Server Start/Stop/Restart/open/close, accept loops, connection goroutines, ConnManager"},
 		Stub:   []string{"network: simulated listeners (EADDRINUSE while bound) and connections", "handler: reference store"},
 		Assume: []string{"a goroutine that is merely not scheduled yet is not a leak: leaks are judged after draining every enabled task", "half of the runs enable the TLS port as well (real crypto/tls clients, some stalled in their handshake)"},
